@@ -208,6 +208,9 @@ static Plan gen_low(uint64_t seed, const Op &opts) {
         }
         if (k == "bre") o.seti("fft", (int) r.below(2)).seti("barb", r.bern(0.4) ? (int) (r.below(4) == 0 ? 0 : r.below(4) == 1 ? 1023 : r.below(2) ? 1024 : 2047) : (int) r.below(2048));
         if (k == "extract") o.seti("idx", r.bern(0.3) ? (r.bern(0.5) ? 0 : 1023) : (int) r.below(1024));
+        // history: the same thread bootstraps under two keys of the same ring degree and different mask counts (k = 1 and k = 2),
+        // in either order (per-thread scratch sized or shaped by the first key would show)
+        if ((k == "boot" || k == "bre") && sp.name == "S" && sp.n <= 16) o.seti("alt", r.bern(0.4) ? 1 : 0);
         p.ops.push_back(o);
     }
     return p;
@@ -612,6 +615,12 @@ static void exec_low(const Plan &p, RunResult &r) {
     bool need_key = false;
     for (auto &o : p.ops) { std::string k = o.gets("k"); if (k == "boot" || k == "bre") need_key = true; }
     KeyCtx *kc = need_key ? get_key(sp, p.cfg.getu("kseed")) : nullptr;
+    KeyCtx *kc_alt = nullptr; ParamSpec sp_alt = sp;
+    for (auto &o : p.ops) if (o.geti("alt") && kc && !kc_alt) {
+        sp_alt.k = sp.k == 1 ? 2 : 1; sp_alt.l = 3; sp_alt.Bgbit = 7; sp_alt.t = 8; sp_alt.basebit = 2; sp_alt.a_ks = 1e-7; sp_alt.a_bk = 1e-9;
+        kc_alt = get_key(sp_alt, p.cfg.getu("kseed") ^ 0xa17);
+        r.probes.add("second_key_other_mask_count");
+    }
     lib_seed(mix64(p.seed, 0x10e));
     LowCtx cx; cx.init((int) p.cfg.geti("xk", 1), (int) p.cfg.geti("xl", 2), (int) p.cfg.geti("xB", 10), p.cfg.getd("xalpha", 0));
     bool is_default = sp.name != "S";
@@ -624,8 +633,8 @@ static void exec_low(const Plan &p, RunResult &r) {
         else if (k == "muxrot") op_muxrot(o, cx, r, (int) oi);
         else if (k == "blindrot") op_blindrot(o, cx, r, (int) oi);
         else if (k == "ks") op_ks(o, r, (int) oi);
-        else if (k == "boot" && kc) op_boot(o, kc, r, (int) oi, nb_br, nb_full);
-        else if (k == "bre" && kc) op_bre(o, kc, r, (int) oi, nb_br);
+        else if (k == "boot" && kc) { bool alt = o.geti("alt") && kc_alt; op_boot(o, alt ? kc_alt : kc, r, (int) oi, alt ? 12.0 * sp_alt.sd_br() * 1.5 + 1e-7 : nb_br, alt ? 12.0 * sp_alt.sd_gate_out() * 1.5 + 1e-7 : nb_full); }
+        else if (k == "bre" && kc) { bool alt = o.geti("alt") && kc_alt; op_bre(o, alt ? kc_alt : kc, r, (int) oi, alt ? 12.0 * sp_alt.sd_br() * 1.5 + 1e-7 : nb_br); }
         else if (k == "extract") op_extract(o, cx, r, (int) oi);
         r.steps++;
         r.ev.u64(obs::hash_generator());
